@@ -170,6 +170,19 @@ def check_jwk(chk, prog, env, model):
         a, b, res, it, fails = mem_entry(chk, prog, env, model, unit, fn, mk)
         n += a
         bad += b
+        # an importer that lost an allocation must flag the item: otherwise the load succeeds with a key that lacks what the allocation
+        # was for (key id, key octets, ...)
+        for s_, rv_ in res:
+            af = [e for e in s_.trace if e[0] == 'allocfail']
+            if not af:
+                continue
+            n += 1
+            if flag_of(s_, ('obj', 'item')) != 1:
+                bad += 1
+                fn_, (ff, ll) = af[0][1], af[0][2]
+                chk.add(Finding('C17.success-after-failure', unit, fn, 'item-after[%s@%s]' % (fn_, (ff or '').split('/')[-1]),
+                                '%s leaves the item unflagged on a path where %s at %s:%s failed: the key is delivered without what that '
+                                'allocation was for' % (fn, fn_, ff, ll), line=ll))
     # jwk_process_one with importer summaries
     asym, octet, values = c07.importer_summaries(env, None)
     hooks = H.std_hooks(env, extra={'process_octet': octet, 'jwk_process_values': values})
